@@ -1749,7 +1749,7 @@ class TypecastAccessor(WritableAccessor[T_co], PhysicalAccessor[T_co]):
     ) -> T_co:
         if typehint:
             raise TypeError(f"{self._qualname} does not support type hints")
-        acc: WritableAccessor = getattr(self.class_, self.attr)
+        acc: WritableAccessor = getattr(type(elmlist._parent), self.attr)
         obj = acc.create(elmlist, _xtype.build_xtype(self.class_), **kw)
         assert isinstance(obj, self.class_)
         return obj
@@ -1766,7 +1766,7 @@ class TypecastAccessor(WritableAccessor[T_co], PhysicalAccessor[T_co]):
             raise TypeError(
                 f"Expected {self.class_.__name__}, got {type(value).__name__}"
             )
-        acc: WritableAccessor = getattr(self.class_, self.attr)
+        acc: WritableAccessor = getattr(type(elmlist._parent), self.attr)
         acc.insert(elmlist, index, value)
 
     def delete(
@@ -1774,14 +1774,14 @@ class TypecastAccessor(WritableAccessor[T_co], PhysicalAccessor[T_co]):
         elmlist: _obj.ElementListCouplingMixin,
         obj: _obj.ModelObject,
     ) -> None:
-        acc: WritableAccessor = getattr(self.class_, self.attr)
+        acc: WritableAccessor = getattr(type(elmlist._parent), self.attr)
         acc.delete(elmlist, obj)
 
     @contextlib.contextmanager
     def purge_references(
         self, obj: _obj.ModelObject, target: _obj.ModelObject
     ) -> cabc.Iterator[None]:
-        acc: WritableAccessor = getattr(self.class_, self.attr)
+        acc: WritableAccessor = getattr(type(obj), self.attr)
         with acc.purge_references(obj, target):
             yield
 
